@@ -88,6 +88,35 @@ def oracle_first_match(engine, txn, data_sources=None):
     return winner, truth
 
 
+def oracle_first_match_ref(engine, txn, values, data_sources=None):
+    """The same oracle, with every expression evaluated by the independent reference interpreter (harness/ref.py) from the
+    expression SOURCE text - no tally code decides whether a condition is true."""
+    from harness import ref
+    genv = {}
+    for name, e in engine.variables.items():
+        try:
+            genv[name] = ref.ref_eval_src(e, txn, data_sources=data_sources, values=values)      # globals are evaluated on their own
+        except ref.RefError:
+            pass
+    winner = None
+    truth = []
+    for r in engine.rules:
+        env = dict(genv)
+        for name, e in r.let_bindings:
+            try:
+                env[name] = ref.ref_eval_src(e, txn, variables=dict(env), data_sources=data_sources, values=values)
+            except ref.RefError:
+                env[name] = None
+        try:
+            m = bool(ref.ref_eval_src(r.match_expr, txn, variables=env, data_sources=data_sources, values=values))
+        except ref.RefError:
+            m = False
+        truth.append(m)
+        if m and winner is None and r.category != '':
+            winner = r
+    return winner, truth
+
+
 # ------------------------------------------------------------------------------------------- templates
 # Small files (2-3 rules): how N rules shadow each other is the truth-vector core's subject; these files check
 # that conditions, global variables and let bindings are wired into the selection as the reference says.
